@@ -1337,6 +1337,16 @@ func execQuery(line, src string, out func(string, string), st *hlib.Stats) {
 		if res[2] != "timeout" && res[2] != "panic" {
 			tn := traceSearch(cur.reader, cur.cfg, q, 2, st)
 			out("trace none "+as, tn)
+			if strings.Contains(tn, "<conjunction:unadorned>") {
+				if diff, same := conjOneHits(ta); diff || same {
+					if diff {
+						st.Count("trace:unadorned-conjunction-two-1hit-terms-different-docs")
+					}
+					if same {
+						st.Count("trace:unadorned-conjunction-two-1hit-terms-same-doc")
+					}
+				}
+			}
 			if strings.Contains(tn, "<disjunction:unadorned>") && oneHitBeforeLastSegment(ta) {
 				// score none rewrote a disjunction into ONE unadorned iterator, and (seen in the scored tree) a term of the
 				// query has a 1-hit postings list in a segment that is followed by another segment
@@ -2181,8 +2191,15 @@ func genMergedOneHit(r *hlib.Rand, caseNo int, emit func(string)) {
 	common := []string{"a", "ab", "abc"}
 	words := []string{"a", "b", "ab", "bb"}
 	next, used := 0, 0
+	rareDoc := map[string]string{}
+	var plainDocs []string
 	doc := func(kw string) string {
 		id := "d" + strconv.Itoa(next)
+		if kw != "" && len(kw) >= 2 && kw != "ab" && kw != "abc" {
+			rareDoc[kw] = id
+		} else {
+			plainDocs = append(plainDocs, id)
+		}
 		next++
 		toks := []string{id}
 		if r.Chance(70) {
@@ -2239,10 +2256,70 @@ func genMergedOneHit(r *hlib.Rand, caseNo int, emit func(string)) {
 		node("fz", at("k"), at("cab"), at("1"), at("0")),
 		b(0, []*sx{b(0, nil, []*sx{rk(), rk()}, nil)}, nil, []*sx{node("t", at("t"), at("bb"))}),
 	}
-	for _, q := range qs {
+	// the conjunction side (optimizeConjunctionUnadorned): score-none conjunctions of terms that are 1-hit encoded in the
+	// merged segment — once-only keywords and _id terms — for DIFFERENT documents (nothing matches), for the SAME document,
+	// and mixed with a frequent positioned term, in both clause orders
+	ri := func(i int) string { return rare[i%used] }
+	kt := func(w string) *sx { return node("t", at("k"), at(w)) }
+	idt := func(id string) *sx { return node("t", at("_id"), at(id)) }
+	tw := func() *sx { return node("t", at("t"), at(words[r.Intn(len(words))])) }
+	must := func(m ...*sx) *sx { return b(0, m, nil, nil) }
+	a, c2, c3 := ri(0), ri(1), ri(2)
+	cq := []*sx{
+		must(kt(a), kt(c2)), must(kt(c2), kt(a)), must(kt(a), kt(c2), kt(c3)),
+		must(kt(a), idt(rareDoc[a])), must(idt(rareDoc[a]), kt(a)),
+		must(kt(a), idt(rareDoc[c2])), must(idt(rareDoc[a]), idt(rareDoc[c2])),
+		must(kt(a), kt(c2), tw()), must(tw(), kt(a), kt(c2)), must(tw(), kt(a)), must(kt(c2), tw()),
+		must(tw(), idt(rareDoc[c3]), kt(c3)), must(tw(), idt(rareDoc[c3]), kt(a), tw()),
+		b(0, []*sx{must(kt(a), kt(c2))}, []*sx{kt(c3)}, nil),
+		b(0, []*sx{node("all")}, nil, []*sx{must(kt(a), kt(c2))}),
+	}
+	if len(plainDocs) > 0 {
+		cq = append(cq, must(idt(plainDocs[0]), kt(a)), must(idt(plainDocs[len(plainDocs)-1]), tw()))
+	}
+	for _, q := range append(qs, cq...) {
 		emit("q " + q.String())
 	}
 }
+
+// conjOneHits inspects the all-term conjunctions `(conj (term p …) (term p …) …)` of a scored trace: does one hold two
+// terms that are 1-hit encoded in the SAME segment for different documents / for the same document?
+func conjOneHits(trace string) (different, same bool) {
+	tree := trace
+	if i := strings.Index(trace, " @ "); i >= 0 {
+		tree = trace[:i]
+	}
+	for _, m := range conjOfTermsRe.FindAllStringSubmatch(tree, -1) {
+		var kids [][]string
+		for _, part := range strings.Split(m[1], "(term p ")[1:] {
+			end := strings.IndexByte(part, ')')
+			if end < 0 {
+				continue
+			}
+			toks := strings.Fields(part[:end])
+			if len(toks) >= 3 {
+				kids = append(kids, toks[2:])
+			}
+		}
+		for i := 0; i < len(kids); i++ {
+			for j := i + 1; j < len(kids); j++ {
+				for sg := 0; sg < len(kids[i]) && sg < len(kids[j]); sg++ {
+					x, y := kids[i][sg], kids[j][sg]
+					if strings.HasPrefix(x, "h") && strings.HasPrefix(y, "h") {
+						if x == y {
+							same = true
+						} else {
+							different = true
+						}
+					}
+				}
+			}
+		}
+	}
+	return
+}
+
+var conjOfTermsRe = regexp.MustCompile(`\(conj((?: \(term p [^()]*\))+)\)`)
 
 // genDateEdge: datetime values within 2^52 ns (about 52 days) of either end of the int64 nanosecond time
 // line (years 1677 and 2262) next to ordinary dates, and half-open date ranges facing those ends.
